@@ -463,7 +463,7 @@ func (db *Default) loadFileCache(ctx context.Context) (err error) {
 		},
 	)
 
-	if profNum == 0 || devNum == 0 {
+	if profNum == 0 {
 		l.InfoContext(ctx, "cache is empty; not setting profiles")
 
 		return nil
